@@ -95,3 +95,21 @@ Proof.
   simpl in ND. inversion ND as [|? ? NI _]; subst. apply NI.
   rewrite map_app. apply in_or_app; right; left; reflexivity.
 Qed.
+
+(* ---- both pooled resources that carry request data *)
+Lemma gstep_inv : forall st e, pinv st -> pinv (pstep gputs st e).
+Proof. exact pstep_inv. Qed.
+
+Theorem pools_exclusive : forall evs,
+  NoDup (map snd (held (fst (prun2 evs))) ++ pool (fst (prun2 evs))) /\
+  NoDup (map snd (held (snd (prun2 evs))) ++ pool (snd (prun2 evs))).
+Proof.
+  intros evs.
+  assert (G : forall evs st, pinv (fst st) /\ pinv (snd st) ->
+              pinv (fst (fold_left pstep2 evs st)) /\ pinv (snd (fold_left pstep2 evs st))).
+  { induction evs0 as [|e r IH]; intros st H; [exact H|]. simpl. apply IH.
+    destruct H as [H1 H2]. destruct e; simpl; split; auto using pstep_inv, gstep_inv. }
+  destruct (G evs (pinit, pinit)) as [[A _] [C _]].
+  - split; split; constructor.
+  - split; assumption.
+Qed.
